@@ -72,4 +72,13 @@ def volatileCells : List String :=
   (reviewedEscapes.filter (fun e => e.2 != .readOnlyCallee)).map (fun e => e.1.2.2.2)
     ++ reviewedRebinds.map (fun r => r.2.2) ++ reviewedMemos.map (fun m => m.2.1)
 
+/-- values bound at module / class level that are neither immutable by construction nor builtin containers
+    (`S2T.Gen.ModCells.statefulCells`): (file, name, kind).  The two locks guard the reviewed cache / patch sections
+    (acquired and released within one call: C15); nothing else may exist — in particular no one-shot iterator
+    (`zip` / `map` / `filter` / generator), no open stream, no random generator, no instance with writable fields. -/
+def reviewedStatefulCells : List (String × String × String) := [
+  ("parsing/extractors/pdf/_pypdf_aes_fallback.py", "_ROUND_KEY_CACHE_LOCK", "lock"),
+  ("parsing/extractors/pdf/pdf_extractor.py", "_CHAR_MAP_PATCH_LOCK", "lock")
+]
+
 end S2T.Spec.C06Cells
